@@ -2,7 +2,7 @@
    (harness/cmd/c11) fed to the real codec.PlainCodec / codec.FormCodec.
    case inputs:
      (sform SRC DST)        SRC = snil | sother | (svals ((xK (xV ...)) ...)) | F
-                            DST = snil | sother | svalues | F
+                            DST = snil | sother | svalues | (siface sASSIGNABLE) | F
      (sformdec DST xDATA)
      (splain PSRC PDST)     PSRC = snil | (sdstr sPTR xS) | sdstrnil | (sdbytes sPTR xB) | sdbytesnil | (srefl L)
                             PDST = snil | sdstr | sdstrnil | (sdslice xOLD) | sdbytes | sdbytesnil | (srefl L)
@@ -158,6 +158,7 @@ Definition fdst_of_val (v : val) : option fdst :=
   match v with
   | VS s => if is s "nil" then Some TNil else if is s "other" then Some TOther
             else if is s "values" then Some TValues else None
+  | VL [VS t; VS b] => if is t "iface" then Some (TIface (is b "true")) else None
   | _ => match fval_of_val v with Some (FStruct fs) => Some (TStruct fs) | _ => None end
   end.
 
